@@ -222,6 +222,24 @@ def handle (cmd : String) (args : List String) : Option String :=
         | .err e => "err:" ++ procErrName e
         | .panic _ => "panic"
       pure ("ok " ++ lit ++ " " ++ viaProc)
+  -- a spelling as an unprefixed source literal `(quote <s>)` against `(string->number "<s>")`
+  | "c16-source", [o, t] => do
+      let o ← decOracle o
+      let cs ← decText t
+      let fo := oracleOps o
+      let lit := match parseText fo ("(quote ".toList ++ cs ++ [')']) with
+        | .ok (.pair (.sym q) (.pair d _), none) =>   -- `quote` ignores further operands (`.e-1` is two tokens)
+          if q ≠ "quote".toList then "other"
+          else if datumPoisoned d then "oracle-missing" else encDatum d
+        | .ok (_, none) => "other"
+        | .ok (_, some _) => "trailing"
+        | .err e => "err:" ++ parseErrName e
+        | .panic _ => "panic"
+      let viaProc := match stringToNumberProc fo [.str cs] with
+        | .ok d => if datumPoisoned d then "oracle-missing" else encDatum d
+        | .err e => "err:" ++ procErrName e
+        | .panic _ => "panic"
+      pure ("ok " ++ lit ++ " " ++ viaProc)
   | "highlight", [t, i] => do
       let cs ← decText t
       let i ← i.toNat?
